@@ -135,6 +135,9 @@ func (e *Exec) evalExpr(env *Env, x ast.Expr) Val {
 	case *ast.BasicLit:
 		switch x.Kind {
 		case token.INT:
+			if isDecimal(x.Value) {
+				return vInt(x.Value) // arbitrary precision
+			}
 			n, _ := strconv.ParseInt(x.Value, 0, 64)
 			return vInt(sInt(n))
 		case token.STRING:
@@ -504,6 +507,18 @@ func (e *Exec) evalCall(env *Env, x *ast.CallExpr) Val {
 	case "ffmt":
 		e.S.DeclareFun("formatFloat", []string{"Int", "Int", "Int", "Int"}, "String")
 		return vStr(sx("formatFloat", arg(0).t(), "102", "(- 1)", "64"))
+	case "pfloat":
+		e.S.DeclareFun("parseFloat", []string{"String"}, "Int")
+		return vInt(sx("parseFloat", asStr(arg(0))))
+	case "pfloatok":
+		e.S.DeclareFun("parseFloatOk", []string{"String"}, "Bool")
+		return vBool(sx("parseFloatOk", asStr(arg(0))))
+	case "ptime":
+		e.S.DeclareFun("timeParse", []string{"String", "String"}, "Int")
+		return vInt(sx("timeParse", asStr(arg(0)), asStr(arg(1))))
+	case "ptimeok":
+		e.S.DeclareFun("timeParseOk", []string{"String", "String"}, "Bool")
+		return vBool(sx("timeParseOk", asStr(arg(0)), asStr(arg(1))))
 	case "tfmt":
 		e.S.DeclareFun("timeFormat", []string{"Int", "String"}, "String")
 		return vStr(sx("timeFormat", arg(0).t(), asStr(arg(1))))
@@ -840,4 +855,16 @@ func (e *Exec) instLemma(env *Env, c Clause, st *State) {
 	}
 	e.S.Assert(body)
 	e.usedLemmas[lm.Name] = true
+}
+
+func isDecimal(s string) bool {
+	if s == "" || (len(s) > 1 && s[0] == '0') {
+		return false
+	}
+	for _, c := range s {
+		if c < '0' || c > '9' {
+			return false
+		}
+	}
+	return true
 }
